@@ -5,5 +5,8 @@ import Rpki.Props.C15
 #print axioms Rpki.C15.prefix_criterion_is_range
 #print axioms Rpki.C15.no_criteria_no_match
 #print axioms Rpki.C15.json_roundtrip
+#print axioms Rpki.C15.json_text_tree_roundtrip
+#print axioms Rpki.C15.json_text_roundtrip
+#print axioms Rpki.C15.json_text_injective
 #print axioms Rpki.C15.assertions_payload
 #print axioms Rpki.C15.new_version
